@@ -354,6 +354,12 @@ class NopBase(StatementBase):
 # end pymbolic copy-pasta
 
 class Statement(ConditionalStatementBase):
+    def map_expressions(self, mapper, include_lhs=True):
+        # The condition is an expression contained in this statement, too.
+        return (super()
+                .map_expressions(mapper, include_lhs=include_lhs)
+                .copy(condition=mapper(self.condition)))
+
     def get_dependency_mapper(self, include_calls="descend_args"):
         from dagrt.expression import ExtendedDependencyMapper
         return ExtendedDependencyMapper(
